@@ -949,3 +949,88 @@ func ruleCloseStops(c *Ctx, r *Report) {
 	}
 	r.analysed(rule, fname(conts[0]))
 }
+
+// ---------------------------------------------------------------------------
+// R-SCAN-FRESH-DEST (C15; added after seed C15b): when Scan converts a list into a Go slice, the
+// destination handed to the element conversion is computed inside the loop, per element (the address of the
+// element just appended). A destination computed once before the loop is one piece of storage that every
+// element is converted into; appending a shallow copy of it afterwards makes nested slices (and anything
+// else with reference semantics) share their backing store: [][]int{{1,2},{3,4}} scans as {{3,4},{3,4}}.
+
+func ruleScanFreshDest(c *Ctx, r *Report) {
+	const rule = "R-SCAN-FRESH-DEST"
+	desc := "inside a loop, the destination of an element conversion is computed per iteration"
+	isConv := func(sig *types.Signature) bool {
+		if sig == nil || sig.Recv() != nil || sig.Params().Len() != 4 || sig.Results().Len() != 1 {
+			return false
+		}
+		if _, ok := sig.Params().At(0).Type().Underlying().(*types.Interface); !ok {
+			return false
+		}
+		return isEngNamed(sig.Params().At(2).Type(), "Term") && c.isEnvPtr(sig.Params().At(3).Type()) && isErrorType(sig.Results().At(0).Type())
+	}
+	reach := func(a, b *ssa.BasicBlock) bool {
+		seen := map[*ssa.BasicBlock]bool{}
+		st := append([]*ssa.BasicBlock{}, a.Succs...)
+		for len(st) > 0 {
+			x := st[len(st)-1]
+			st = st[:len(st)-1]
+			if seen[x] {
+				continue
+			}
+			seen[x] = true
+			if x == b {
+				return true
+			}
+			st = append(st, x.Succs...)
+		}
+		return false
+	}
+	n, nloop := 0, 0
+	for _, fn := range c.LibFuncs() {
+		if funcPkg(fn) != c.Root {
+			continue
+		}
+		seen := 0
+		eachInstr(fn, func(in ssa.Instruction) {
+			call, ok := in.(*ssa.Call)
+			if !ok {
+				return
+			}
+			var sig *types.Signature
+			if f := call.Call.StaticCallee(); f != nil {
+				sig = f.Signature
+			} else if !call.Call.IsInvoke() {
+				sig, _ = call.Call.Value.Type().Underlying().(*types.Signature)
+			}
+			if !isConv(sig) {
+				return
+			}
+			n++
+			cb := call.Block()
+			if !reach(cb, cb) {
+				return // not in a loop
+			}
+			nloop++
+			seen++
+			key := fmt.Sprintf("%s/element-dest#%d", fname(fn), seen)
+			good := true
+			var bad ssa.Value
+			for _, l := range c.originSet(call.Call.Args[0]) {
+				def, ok := l.(ssa.Instruction)
+				if !ok || def.Block() == nil || !(def.Block() == cb || (reach(def.Block(), cb) && reach(cb, def.Block()))) {
+					good, bad = false, l
+				}
+			}
+			if good {
+				r.ok(rule, key, c.at(in), desc, "the destination is computed inside the loop", true)
+			} else {
+				r.bad(rule, fmt.Sprintf("%s/element-dest", fname(fn)), c.at(in), desc, "the destination ("+valName(bad)+") is computed before the loop: every element is converted into the same storage and a shallow copy is kept - nested slices end up sharing one backing array")
+			}
+		})
+	}
+	if nloop == 0 {
+		r.bad(rule, "scan/element-conversions", "-", desc, fmt.Sprintf("no element conversion inside a loop found (%d conversion calls seen)", n))
+	}
+	r.analysed(rule, fmt.Sprintf("%d calls of the conversion family, %d inside loops", n, nloop))
+}
